@@ -37,6 +37,28 @@ deriving DecidableEq, Repr, Inhabited
 
 def orientList : List Orient := [.F, .B, .L, .R]
 
+/-- where `empty` puts the exit -/
+def emptyExit (g1 : Grid) (sh : Shape) (randomAgent randomExit : Bool) (d : DrawSt) :
+    Except PyErr (Pos × DrawSt) :=
+  if randomExit then
+    let cands := g1.area.insidePositions.filter fun p => randomAgent || p != (⟨1, 1⟩ : Pos)
+    match drawChoice cands.length d with
+    | (none, _) => .error .valueError
+    | (some i, d) => .ok (cands.getD i ⟨1, 1⟩, d)
+  else .ok (⟨sh.h - 2, sh.w - 2⟩, d)
+
+/-- where `empty` puts the agent -/
+def emptyAgent (g2 : Grid) (randomAgent : Bool) (d : DrawSt) : Except PyErr (Agent × DrawSt) :=
+  if randomAgent then
+    let ps := floorPositions g2
+    match drawChoice ps.length d with
+    | (none, _) => .error .valueError
+    | (some i, d) =>
+      match drawChoice 4 d with
+      | (none, _) => .error .valueError
+      | (some k, d) => .ok (⟨ps.getD i ⟨1, 1⟩, orientList.getD k .F, .noneObj⟩, d)
+  else .ok (⟨⟨1, 1⟩, .R, .noneObj⟩, d)
+
 /-- `empty(shape, random_agent, random_exit)` -/
 def resetEmpty (sh : Shape) (randomAgent randomExit : Bool) (d : DrawSt) : Except PyErr (State × DrawSt) :=
   if sh.h < 4 || sh.w < 4 then .error .valueError else
@@ -44,28 +66,15 @@ def resetEmpty (sh : Shape) (randomAgent randomExit : Bool) (d : DrawSt) : Excep
   match drawAll g0 g0.area.borderPositions .wall with
   | .error e => .error e
   | .ok g1 =>
-    let exitDraw : Except PyErr (Pos × DrawSt) :=
-      if randomExit then
-        let cands := g1.area.insidePositions.filter fun p => randomAgent || p != (⟨1, 1⟩ : Pos)
-        match drawChoice cands.length d with
-        | (none, _) => .error .valueError
-        | (some i, d) => .ok (cands.getD i ⟨1, 1⟩, d)
-      else .ok (⟨sh.h - 2, sh.w - 2⟩, d)
-    match exitDraw with
+    match emptyExit g1 sh randomAgent randomExit d with
     | .error e => .error e
     | .ok (ep, d) =>
       match g1.setE ep (.exit .none) with
       | .error e => .error e
       | .ok g2 =>
-        if randomAgent then
-          let ps := floorPositions g2
-          match drawChoice ps.length d with
-          | (none, _) => .error .valueError
-          | (some i, d) =>
-            match drawChoice 4 d with
-            | (none, _) => .error .valueError
-            | (some k, d) => .ok (⟨g2, ⟨ps.getD i ⟨1, 1⟩, orientList.getD k .F, .noneObj⟩⟩, d)
-        else .ok (⟨g2, ⟨⟨1, 1⟩, .R, .noneObj⟩⟩, d)
+        match emptyAgent g2 randomAgent d with
+        | .error e => .error e
+        | .ok (ag, d) => .ok (⟨g2, ag⟩, d)
 
 /-- consecutive pairs (`mitt.pairwise`) -/
 def pairwise {α} : List α → List (α × α)
@@ -263,6 +272,11 @@ def resetTeleport (sh : Shape) (d : DrawSt) : Except PyErr (State × DrawSt) :=
           | (none, _) => .error .valueError
           | (some k, d) => .ok (⟨g, ⟨⟨1, 1⟩, [Orient.R, Orient.B].getD k .R, .noneObj⟩⟩, d)
 
+/-- the cells `memory` turns into floor: rows 1 and h-2 between the corners, the middle column -/
+def memoryFloorCells (sh : Shape) : List Pos :=
+  cartesian [1] (pyRange 2 (sh.w - 2)) ++ cartesian [sh.h - 2] (pyRange 2 (sh.w - 2)) ++
+    cartesian (pyRange 2 (sh.h - 2)) [sh.w / 2]
+
 /-- `memory(shape, colors)`; `colors` is the colour set sorted by value -/
 def resetMemory (sh : Shape) (colors : List Color) (d : DrawSt) : Except PyErr (State × DrawSt) :=
   if sh.h < 5 then .error .valueError else
@@ -270,10 +284,7 @@ def resetMemory (sh : Shape) (colors : List Color) (d : DrawSt) : Except PyErr (
   if colors.contains .none then .error .valueError else
   if colors.length < 2 then .error .valueError else
   let g0 := Grid.fill sh.h.toNat sh.w.toNat .wall
-  let floorCells :=
-    cartesian [1] (pyRange 2 (sh.w - 2)) ++ cartesian [sh.h - 2] (pyRange 2 (sh.w - 2)) ++
-    cartesian (pyRange 2 (sh.h - 2)) [sh.w / 2]
-  match drawAll g0 floorCells .floor with
+  match drawAll g0 (memoryFloorCells sh) .floor with
   | .error e => .error e
   | .ok g1 =>
     match drawChoiceNR colors.length 2 d with
